@@ -25,7 +25,6 @@ Definition listing2 (c : config) (lo amid mid L : nat) : list bytes :=
 Section Listing2.
 Variables (c : config) (f : fs) (off : Z) (lo amid mid L : nat).
 Hypothesis Hsfx : sfx_ok (c_spec c).
-Hypothesis HL : (N.of_nat L <= 100000)%N.
 Hypothesis DS : dir_shape2 c f lo amid mid L.
 
 Let sfx := fsfx (c_spec c).
@@ -46,7 +45,7 @@ Proof.
   - intros x y. apply key_le_antisym.
   - apply StronglySorted_filter, S2_sorted.
   - apply StronglySorted_map_seq. intros i j Hi Hij Hj. unfold key_rel, sfx.
-    apply (key_le_number c i j false false Hsfx Hij). lia.
+    apply (key_le_number_any c i j false false Hsfx Hij).
   - apply NoDup_filter, S2_nodup.
   - apply FinFun.Injective_map_NoDup; [intros i j E; exact (rname_inj _ _ _ E) | apply seq_NoDup].
   - intros x. rewrite filter_In, S2_in, in_map_iff. split.
@@ -69,7 +68,7 @@ Proof.
   - intros x y. apply key_le_antisym.
   - apply StronglySorted_filter, S2_sorted.
   - apply StronglySorted_map_seq. intros i j Hi Hij Hj. unfold key_rel, sfx. rewrite <- !add_gz_gname.
-    apply (key_le_number c i j true true Hsfx Hij). lia.
+    apply (key_le_number_any c i j true true Hsfx Hij).
   - apply NoDup_filter, S2_nodup.
   - apply FinFun.Injective_map_NoDup; [intros i j E; exact (gname_inj _ _ _ E) | apply seq_NoDup].
   - intros x. rewrite filter_In, S2_in, in_map_iff. split.
@@ -176,16 +175,16 @@ Proof. reflexivity. Qed.
 
 (* ------------------------------------------------------------------ the loop on a directory without leftovers *)
 Lemma cleanup_loop_numbers c crit k n m w closed lo mid :
-  numkcfg c crit k -> sfx_ok (c_spec c) -> (N.of_nat (length closed) <= 100000)%N -> klim k = Some (n, m) ->
+  numkcfg c crit k -> sfx_ok (c_spec c) -> klim k = Some (n, m) ->
   quiet w -> fs_wf (wfs w) -> kdir c (wfs w) closed lo mid ->
   exists w', cleanup_loop w (listing c lo mid (length closed)) 0 n (n + m) = (true, w') /\ same_env w w' /\ fs_wf (wfs w')
     /\ kdir c (wfs w') closed (Nat.max lo (length closed - (n + m))) (Nat.max mid (length closed - n))
     /\ same_at (wfs w) (wfs w') (cname c).
 Proof.
-  intros (Hrot & Hts & _) Hsfx HL Hk Q W KD.
-  destruct (cleanup_numbers c w k n m closed lo mid Hts Hsfx HL Hk Q W KD) as (w' & E & S & W' & KD' & SC).
+  intros (Hrot & Hts & _) Hsfx Hk Q W KD.
+  destruct (cleanup_numbers c w k n m closed lo mid Hts Hsfx Hk Q W KD) as (w' & E & S & W' & KD' & SC).
   rewrite (cleanup_impl_unfold c w k IFNum n m Hk Q), (fixed_of_fixed0 c w Hts) in E.
-  rewrite (list_log_gz_numbers c (wfs w) (woff w) lo mid (length closed) Hsfx HL (kdir_shape _ _ _ _ _ KD)) in E.
+  rewrite (list_log_gz_numbers c (wfs w) (woff w) lo mid (length closed) Hsfx (kdir_shape _ _ _ _ _ KD)) in E.
   rewrite (listing_no_redundant c lo mid (length closed) Hsfx (kd_le _ _ _ _ _ KD)) in E. cbn [remove_redundant negb] in E.
   destruct (cleanup_loop w (listing c lo mid (length closed)) 0 n (n + m)) as [ok w2].
   destruct ok; [|discriminate]. injection E as ->. exists w'. auto.
@@ -193,15 +192,15 @@ Qed.
 
 (* ------------------------------------------------------------------ one cleanup on an xdir: the repair *)
 Theorem cleanup_xdir c crit k n m w closed ocur lo mid red :
-  numkcfg c crit k -> sfx_ok (c_spec c) -> (N.of_nat (length closed) <= 100000)%N -> klim k = Some (n, m) ->
+  numkcfg c crit k -> sfx_ok (c_spec c) -> klim k = Some (n, m) ->
   quiet w -> kst c (wfs w) (wfs w) closed ocur lo mid red ->
   exists w', cleanup_impl c w k IFNum false = (Ok tt, w') /\ same_env w w'
     /\ kst c (wfs w) (wfs w') closed ocur (Nat.max lo (length closed - (n + m))) (Nat.max mid (length closed - n)) None.
 Proof.
-  intros Hcfg Hsfx HL Hk Q K. pose proof Hcfg as (Hrot & Hts & _). pose proof K as [W Nd X Sc].
+  intros Hcfg Hsfx Hk Q K. pose proof Hcfg as (Hrot & Hts & _). pose proof K as [W Nd X Sc].
   pose proof (xd_le _ _ _ _ _ _ _ X) as Hle.
   rewrite (cleanup_impl_unfold c w k IFNum n m Hk Q), (fixed_of_fixed0 c w Hts).
-  rewrite (list_log_gz_numbers2 c (wfs w) (woff w) lo (amid_of mid red) mid (length closed) Hsfx HL (xdir_shape2 c _ closed ocur lo mid red X Nd)).
+  rewrite (list_log_gz_numbers2 c (wfs w) (woff w) lo (amid_of mid red) mid (length closed) Hsfx (xdir_shape2 c _ closed ocur lo mid red X Nd)).
   (* after the redundant archive has been removed *)
   assert (Rem : exists w1, remove_redundant w (redundant_gz (listing2 c lo (amid_of mid red) mid (length closed)))
                              (listing2 c lo (amid_of mid red) mid (length closed))
@@ -222,7 +221,7 @@ Proof.
   destruct Rem as (w1 & E1 & S1 & K1). rewrite E1. cbn [negb].
   pose proof K1 as [W1 Nd1 X1 Sc1].
   assert (KD1 : kdir c (wfs w1) closed lo mid) by (eapply xdir_kdir; eassumption).
-  destruct (cleanup_loop_numbers c crit k n m w1 closed lo mid Hcfg Hsfx HL Hk (proj1 S1) W1 KD1) as (w' & E & S & W' & KD' & SC).
+  destruct (cleanup_loop_numbers c crit k n m w1 closed lo mid Hcfg Hsfx Hk (proj1 S1) W1 KD1) as (w' & E & S & W' & KD' & SC).
   rewrite E. exists w'. split; [reflexivity|]. split; [eapply same_env_trans; eassumption|].
   constructor.
   - exact W'.
@@ -236,6 +235,7 @@ Qed.
 Print Assumptions cleanup_xdir.
 
 (* ------------------------------------------------------------------ the highest index *)
+(* (the bound: get_highest_index parses the numbers as u32; it has nothing to do with the order of the listing) *)
 Lemma index_of_gname c i : (N.of_nat i <= u32_max)%N ->
   index_of_listed (fixed0 c) (gname c i) = Some (N.of_nat i).
 Proof.
@@ -260,13 +260,13 @@ Proof.
 Qed.
 
 Lemma highest_index_xdir c off f closed ocur lo mid red :
-  sfx_ok (c_spec c) -> (N.of_nat (length closed) <= 100000)%N ->
+  sfx_ok (c_spec c) -> (N.of_nat (length closed) <= u32_max)%N ->
   xdir c (file_of f) closed ocur lo mid red -> nodup_names f -> (lo < length closed \/ length closed = 0) ->
   get_highest_index off (c_spec c) (fixed0 c) f
   = Some (match length closed with O => None | S l => Some (N.of_nat l) end).
 Proof.
   intros Hsfx HL X Nd Hlo. unfold get_highest_index.
-  rewrite (list_log_gz_numbers2 c f off lo (amid_of mid red) mid (length closed) Hsfx HL (xdir_shape2 c f closed ocur lo mid red X Nd)).
+  rewrite (list_log_gz_numbers2 c f off lo (amid_of mid red) mid (length closed) Hsfx (xdir_shape2 c f closed ocur lo mid red X Nd)).
   f_equal. pose proof (xd_le _ _ _ _ _ _ _ X) as Hle. set (L := length closed) in *.
   assert (Ham : mid <= amid_of mid red <= L).
   { destruct red as [b|]; cbn [amid_of]; [destruct (xd_red _ _ _ _ _ _ _ X) as [Hm _]; fold L in Hm|]; lia. }
@@ -283,12 +283,12 @@ Proof.
   - assert (El : N.of_nat l = N.of_nat (S l - 1)) by (f_equal; lia). rewrite El. apply max_opt_top; [lia | |].
     + intros v Hv. apply filter_map_opt_in in Hv. destruct Hv as (x & Hx & Ex). apply In2 in Hx.
       destruct Hx as [(i & Hi & ->)|(i & Hi & ->)].
-      * rewrite index_of_rname in Ex by (unfold u32_max; lia). injection Ex as <-. exists i. split; [lia | reflexivity].
-      * rewrite index_of_gname in Ex by (unfold u32_max; lia). injection Ex as <-. exists i. split; [lia | reflexivity].
+      * rewrite index_of_rname in Ex by lia. injection Ex as <-. exists i. split; [lia | reflexivity].
+      * rewrite index_of_gname in Ex by lia. injection Ex as <-. exists i. split; [lia | reflexivity].
     + apply filter_map_opt_in. destruct (Nat.lt_ge_cases (S l - 1) mid) as [Hlt|Hge].
       * exists (gname c (S l - 1)). split; [apply In2; right; exists (S l - 1); split; [lia | reflexivity]|].
-        apply index_of_gname. unfold u32_max. lia.
+        apply index_of_gname. lia.
       * exists (rname c (S l - 1)). split; [apply In2; left; exists (S l - 1); split; [lia | reflexivity]|].
-        apply index_of_rname. unfold u32_max. lia.
+        apply index_of_rname. lia.
 Qed.
 Print Assumptions highest_index_xdir.
